@@ -12,8 +12,8 @@ from mc.ref import expr as rx
 
 ID = "C09"
 LEVEL = "model_checking"
-LEVEL_TEXT = ("Explicit enumeration of macro bodies (every ordered selection of <=3 of 6 statement kinds: .db p, .dw q, lda.w p, local "
-              "label + reference, nested call, width-inferred lda p) x every pair of argument kinds (literal, := constant, backward "
+LEVEL_TEXT = ("Explicit enumeration of macro bodies (every ordered selection of <=3 of 7 statement kinds: .db p, .dw q, lda.w p, local "
+              "label + reference, nested call, width-inferred lda p, .if over a parameter) x every pair of argument kinds (literal, := constant, backward "
               "label, forward label, a caller name spelled like the other parameter, a caller name spelled like the body's local "
               "label, constant expression) x caller label before/after x 1-3 applications, plus families for code-block arguments "
               "and splices, 0/1-parameter macros, terminated recursion, undefined macro and missing/surplus arguments. Each program "
@@ -39,6 +39,7 @@ BODY_STMTS = {
     "local": [("label", "loc"), ("data", "dw", [S("loc")])],
     "nested": [("call", "nn", [("b", "+", S("pa"), N(1))])],
     "lda_pb": [("ins", "lda", "", DIRECT, S("pb"))],
+    "if_pb": [("if", ("b", "-", S("pb"), N(0x31)), [("data", "db", [N(0xA1)])], [("data", "db", [N(0xA2)])])],  # expansion-time use of a parameter
 }
 ARG_KINDS = ["lit", "const", "back", "fwd", "other-param", "local-name", "const-expr"]
 
@@ -61,7 +62,7 @@ def arg_expr(kind, j, variant):
 
 
 def bound(tier):
-    return ("156 bodies x 49 argument-kind pairs x 2 placements of the caller's label x 1..3 applications; + code-block/splice, "
+    return ("259 bodies x 49 argument-kind pairs x 2 placements of the caller's label x 1..3 applications; + code-block/splice, "
             "0/1-parameter, recursion depth 0..6, undefined / too-few / surplus families")
 
 
@@ -192,7 +193,7 @@ def run_main(bi):
     evals = nt = states = 0
     example = None
     uses_pa = any(b in ("db_pa", "ldaw_pa", "nested") for b in sel)
-    uses_pb = any(b in ("dw_pb", "lda_pb") for b in sel)
+    uses_pb = any(b in ("dw_pb", "lda_pb", "if_pb") for b in sel)
     for k0, k1 in itertools.product(ARG_KINDS, repeat=2):
         for loc_pos in ("before", "after"):
             for napps in (1, 2, 3):
@@ -230,6 +231,14 @@ def run_special():
                     p.append(("call", "mc", [code, arg_expr(k1, 1, a)]))
                 p += [("label", "fwd"), ("data", "db", [N(0xF0)])]
                 progs.append((p, f"code-arg,arg2={k1}", True))
+    # the body refers to a label that the spliced block defines (the block is expanded where it is spliced: same scope)
+    code2 = ("code", [("label", "cl2"), ("data", "db", [N(0x66)])])
+    for napps in (1, 2):
+        p = base + [("macro", "mb", ["blk"], [("data", "db", [N(1)]), ("splice", "blk"), ("data", "dw", [S("cl2")])]),
+                    ("org", N(ORG)), ("label", "back"), ("data", "db", [N(0xB0)])]
+        for a in range(napps):
+            p.append(("call", "mb", [code2]))
+        progs.append((p, "code-arg-label-used-by-body", True))
     # splice of a non-code parameter / undefined name must fail
     progs.append((base + [("macro", "ms", ["pa"], [("splice", "pa")]), ("org", N(ORG)), ("call", "ms", [N(1)])], "splice-of-value", False))
     # 0 and 1 parameter macros
@@ -261,6 +270,14 @@ def run_special():
     progs.append((base + [("macro", "m2", ["pa", "pb"], [("data", "db", [S("pa")])]), ("org", N(ORG)), ("call", "m2", [N(1)])], "too-few-arguments", False))
     progs.append((base + [("macro", "m2", ["pa", "pb"], [("data", "db", [S("pb")])]), ("org", N(ORG)), ("call", "m2", [])], "too-few-arguments", False))
     progs.append((base + [("org", N(ORG)), ("call", "nn", [N(1), N(2)])], "surplus-arguments(unspecified)", False))
+    # "applying an undefined macro fails" must not depend on what an earlier assembly in this process defined
+    first = impl.assemble(render.source(base + [("macro", "ghost", ["x"], [("data", "db", [S("x")])]), ("org", N(ORG)), ("call", "ghost", [N(1)])]), rom="low_rom")
+    second = impl.assemble(render.source(base + [("org", N(ORG)), ("call", "ghost", [N(2)])]), rom="low_rom")
+    evals += 2
+    states += 1
+    if not first.accepted or second.accepted:
+        viol.append({"key": "macro:invalid-program-accepted:undefined-macro-defined-by-an-earlier-assembly",
+                     "msg": f"first assembly (defines ghost): {first.brief()}; second assembly applies ghost without defining it: {second.brief()}"})
     for prog, tag, twin in progs:
         n, status = check(prog, tag, viol, want_twin=twin)
         evals += n
